@@ -151,8 +151,8 @@ def run(ctx):
         for i in range(n_programs):
             cls = "scalar" if i % 3 else "array"
             container = ("list", "tuple", "nd")[(i // 3) % 3]
-            n = 1 if cls == "scalar" else r.randint(1, 4)
-            spec = B.tree(r, r.randint(1, 4), n, floordiv=True)
+            n = 1 if cls == "scalar" else (0 if i % 24 == 3 else r.randint(1, 4))  # (an Array without values still has a dimension)
+            spec = B.tree(r, r.randint(1, 4), max(n, 1), floordiv=True)
             ck.root, ck.cls = spec, "%s/%s" % (cls, container)
             try:
                 programs.evaluate(T, spec, cls, container, nontrivial, n)
